@@ -125,12 +125,30 @@ def audit_files(files):
     return problems, obligations, discharged
 
 
+def coq_files():
+    """Every .v of the development except the extraction scripts (which write .ml files)."""
+    out = []
+    for root, _, fs in os.walk(COQ):
+        for f in fs:
+            if f.endswith(".v"):
+                rel = os.path.relpath(os.path.join(root, f), COQ)
+                if not rel.startswith("Extract/"):
+                    out.append(rel)
+    return sorted(out)
+
+
 def coq_make(targets, timeout):
-    if not os.path.exists(os.path.join(COQ, "Makefile")) or \
-            os.path.getmtime(os.path.join(COQ, "Makefile")) < os.path.getmtime(os.path.join(COQ, "_CoqProject")):
-        rc, out = sh(["coq_makefile", "-f", "_CoqProject", "-o", "Makefile"], cwd=COQ, timeout=60)
+    """Full .vo build (never -vos/-vok) of the given targets through coq_makefile.
+    The Makefile is regenerated whenever the set of .v files changes; _CoqProject
+    holds only the options."""
+    files = coq_files()
+    listing = "\n".join(files)
+    lf = os.path.join(COQ, ".filelist")
+    if not os.path.exists(os.path.join(COQ, "Makefile")) or not os.path.exists(lf) or open(lf).read() != listing:
+        rc, out = sh(["coq_makefile", "-f", "_CoqProject", "-o", "Makefile"] + files, cwd=COQ, timeout=60)
         if rc != 0:
             return rc, out
+        open(lf, "w").write(listing)
     return sh(["make", f"-j{NPROC}"] + targets, cwd=COQ, timeout=timeout)
 
 
@@ -409,78 +427,113 @@ def run_check(C, tier, seed, replay=None):
             coq_ok = False
             proof_broken.append("coqchk rejected the compiled proofs: " + out.strip()[-400:])
 
-    # 3. builds
-    corr = C.get("correspondence")
-    results = None
-    if corr:
-        ok_h, bins, out_h = build_harness([corr["impl_bin"]])
+    # 3./4./5. correspondence suites: build, generate, run both sides, classify
+    known, fixed = load_findings(prop)
+    known_hits = {}
+    suites = C.get("suites")
+    if suites is None and C.get("correspondence"):
+        s0 = dict(C["correspondence"])
+        for k in ("gen", "nontrivial", "classify", "oracle_ok", "rule", "exhaustive", "finding_matches"):
+            if k in C:
+                s0[k] = C[k]
+        s0.setdefault("name", prop.lower())
+        suites = [s0]
+    suites = suites or []
+    n_disagree = 0
+    tot_eval, tot_nt, rules, all_samples, hists = 0, 0, [], [], {}
+    exhaustive_all = bool(suites)
+    rng = random.Random(seed)
+    if suites:
+        bins_needed = sorted({s["impl_bin"] for s in suites})
+        ok_h, bins, out_h = build_harness(bins_needed)
         if not ok_h:
             log(out_h[-3000:])
             log(f"ERROR: cannot build the harness against {REPO} (does the repository compile?)")
             write_evidence(ev, t0)
             return 2
-        ok_m, exe_m = build_model_runner(prop, corr["extract"], corr["driver"],
-                                         coq_cone(corr["extract"]))
+        rel_bins = None
+        if tier == "thorough" and any(s.get("release_too") for s in suites):
+            ok_r, rel_bins, out_r = build_harness(bins_needed, release=True)
+            if not ok_r:
+                log(out_r[-2000:]); rel_bins = None
+    for S in suites:
+        sname = S["name"]
+        ok_m, exe_m = build_model_runner(S.get("runner_name", prop + "_" + sname), S["extract"], S["driver"],
+                                         coq_cone(S["extract"]))
         if not ok_m:
-            proof_broken.append("the executable model no longer extracts/compiles: " + exe_m[-400:])
+            proof_broken.append(f"suite {sname}: the executable model no longer extracts/compiles: " + exe_m[-400:])
             log(exe_m[-3000:])
-        # 4. cases
-        rng = random.Random(seed)
         if replay:
-            cases = [json.loads(l)["case"] for l in open(replay) if l.strip().startswith("{") and "case" in json.loads(l)]
-            meta = [None] * len(cases)
+            cases = []
+            for l in open(replay):
+                if l.strip().startswith("{"):
+                    e = json.loads(l)
+                    if "case" in e and e.get("suite", sname) == sname:
+                        cases.append(e["case"])
         else:
             corpus = []
-            cp = os.path.join(VERIF, "corpus", prop.lower() + ".txt")
+            cp = os.path.join(VERIF, "corpus", f"{prop.lower()}_{sname}.txt")
             if os.path.exists(cp):
                 corpus = [l.strip() for l in open(cp) if l.strip() and not l.startswith("#")]
-            gen = list(C["gen"](rng, tier))
-            cases = corpus + gen
-        tmo = 120 if quick else 1800
-        impl = run_sharded(bins[corr["impl_bin"]], cases, tmo)
-        model = run_sharded(exe_m, cases, tmo) if ok_m else ["-"] * len(cases)
+            cases = corpus + list(S["gen"](rng, tier))
+        tmo = S.get("timeout", {}).get(tier, 120 if quick else 3000)
+        margs = S.get("args", [])
+        impl = run_sharded(bins[S["impl_bin"]], cases, tmo, args=margs)
+        model = run_sharded(exe_m, cases, tmo, args=margs) if ok_m else ["-"] * len(cases)
         results = list(zip(cases, impl, model))
-
-    # 5. classify
-    known, fixed = load_findings(prop)
-    known_hits = {}
-    oracle_ok = C.get("oracle_ok", default_oracle_ok)
-    classify = C.get("classify", lambda case, impl, model, oracle: "ok" if impl.startswith("ok") else "err")
-    hist, nontrivial, distinct_nt = {}, 0, set()
-    n_disagree = 0
-    samples = []
-    if results is not None:
+        if rel_bins and S.get("release_too"):
+            # release build (no overflow checks): compared against the model's wrapping variant
+            impl_r = run_sharded(rel_bins[S["impl_bin"]], cases, tmo, args=margs + ["--release"])
+            model_r = run_sharded(exe_m, cases, tmo, args=margs + ["--release"]) if ok_m else ["-"] * len(cases)
+            results += [(c + "  #release", i, m) for c, i, m in zip(cases, impl_r, model_r)]
+        oracle_ok = S.get("oracle_ok", default_oracle_ok)
+        classify = S.get("classify", lambda case, impl, model, oracle: "ok" if impl.startswith("ok") else impl)
+        hist, distinct_nt = {}, set()
         for case, i_line, m_line in results:
             m_res, o_res = split_model_line(m_line)
             k = classify(case, i_line, m_res, o_res)
             hist[k] = hist.get(k, 0) + 1
-            if C["nontrivial"](case, i_line, m_res, o_res):
+            if S["nontrivial"](case, i_line, m_res, o_res):
                 distinct_nt.add(case)
             prop_ok = oracle_ok(case, i_line, o_res)
             corr_ok = (m_line == "-") or (i_line == m_res)
             if prop_ok and corr_ok:
                 continue
             n_disagree += 1
-            entry = {"case": case, "impl": i_line, "model": m_res, "oracle": o_res,
+            entry = {"suite": sname, "case": case, "impl": i_line, "model": m_res, "oracle": o_res,
                      "kind": "property" if not prop_ok else "correspondence"}
             hit = None
             for kf in known:
-                if C.get("finding_matches", lambda *_: False)(kf, case, i_line, m_res, o_res):
+                if S.get("finding_matches", lambda *_: False)(kf, case, i_line, m_res, o_res):
                     hit = kf; break
             if hit:
                 known_hits.setdefault(hit["id"], (hit, entry))
                 continue
             violations.append(entry)
-        k_samples = C.get("n_samples", 6)
+        k_samples = S.get("n_samples", 5)
         step = max(1, len(results) // k_samples)
-        samples = [{"case": c, "impl": i, "model": m} for c, i, m in results[::step][:k_samples]]
-        cov["evaluations"] = len(results)
-        cov["distinct_nontrivial"] = len(distinct_nt)
-        cov["rule"] = C["rule"]
-        cov["samples"] = samples
-        cov["outcome_histogram"] = hist
+        all_samples += [{"suite": sname, "case": c, "impl": i, "model": m} for c, i, m in results[::step][:k_samples]]
+        tot_eval += len(results)
+        tot_nt += len(distinct_nt)
+        rules.append(f"[{sname}] " + S["rule"])
+        hists[sname] = hist
+        exhaustive_all = exhaustive_all and bool(S.get("exhaustive", {}).get(tier, False))
+    if suites:
+        cov["evaluations"] = tot_eval
+        cov["distinct_nontrivial"] = tot_nt
+        cov["rule"] = " ".join(rules)
+        cov["samples"] = all_samples
+        cov["outcome_histogram"] = hists
         cov["disagreements"] = n_disagree
-        cov["exhaustive"] = bool(C.get("exhaustive", {}).get(tier, False))
+        cov["exhaustive"] = exhaustive_all
+    else:
+        cov["samples"] = [{"theorem": t, "statement": theorem_statement(props_rel, t)} for t in props_theorems(props_rel)[:4]]
+    extra = C.get("extra_stage")
+    if extra:
+        # property-specific stage (e.g. trace validation against the running implementation);
+        # returns (violations, broken, coverage-dict)
+        v2, b2, c2 = extra(tier, seed, replay)
+        violations += v2; proof_broken += b2; cov.update(c2)
     cov["trusted_base"] = C["trusted_base"]
     cov["known_findings_hit"] = sorted(known_hits)
     cov["fixed_findings"] = [f.get("summary", "") for f in fixed]
@@ -506,7 +559,7 @@ def run_check(C, tier, seed, replay=None):
             log(f"VIOLATION property={prop} replay={rp}")
         else:
             what = proof_broken[0] if proof_broken else \
-                f"correspondence {corr['impl_bin']} vs {corr['driver']} differs on `{corr_v[0]['case']}` (impl: {corr_v[0]['impl']} / model: {corr_v[0]['model']})"
+                f"correspondence suite {corr_v[0].get('suite')} differs on `{corr_v[0]['case']}` (impl: {corr_v[0]['impl']} / model: {corr_v[0]['model']})"
             log("no longer shown to hold: " + what)
             for extra in proof_broken[1:5]:
                 log("  also: " + extra)
